@@ -656,14 +656,26 @@ func checkRecharge(c *Ctx, r *Report) {
 				}
 			}
 		}
-		// closures: NotifyUri read inside a function literal capturing ue
+		// the URI may be read under the subscriber lock inside a function literal whose result is passed on
 		if !uriOK {
-			for _, an := range f.AnonFuncs {
-				eachInstr(an, func(_ *ssa.BasicBlock, _ int, ins ssa.Instruction) {
-					if fa, ok := ins.(*ssa.FieldAddr); ok && fieldName(fa) == "NotifyUri" && typeIs(fa.X.Type(), ctxPath, "ChfUe") {
-						uriOK = true
+			for d := range depSet(f, s.Call.Args[1]) {
+				call, ok := d.(*ssa.Call)
+				if !ok {
+					continue
+				}
+				callee := call.Call.StaticCallee()
+				if callee == nil || callee.Parent() != f {
+					continue
+				}
+				for _, ri := range returnsOf(callee) {
+					for _, rv := range ri.Vals {
+						for d2 := range depSet(callee, rv) {
+							if fa, ok := d2.(*ssa.FieldAddr); ok && fieldName(fa) == "NotifyUri" && typeIs(fa.X.Type(), ctxPath, "ChfUe") {
+								uriOK = true
+							}
+						}
 					}
-				})
+				}
 			}
 		}
 		r.check(uriOK, "C12.R4", key+"|uri", posOf(c, s), "URI argument derives from the found subscriber's NotifyUri", "the notification is not sent to the NotifyUri the subscriber's consumer registered")
